@@ -478,6 +478,10 @@ class StateMachine(object):  # pylint: disable=too-many-public-methods
         """Send A-ABORT PDU (service-user source) and start (or restart)
         ARTIM timer.
         """
+        if not isinstance(self.primitive, pdu.AAbortPDU):
+            # Not triggered by an A-ABORT request primitive (unexpected or invalid PDU received
+            # while awaiting A-ASSOCIATE-RQ): there is no A-ABORT PDU to forward, build one.
+            self.primitive = pdu.AAbortPDU(source=0, reason_diag=0)
         self.dul_socket.sendall(self.primitive.encode())
         self.timer.restart()
         return States.STA_13
